@@ -34,6 +34,9 @@ PY = "/venv/bin/python" if os.path.exists("/venv/bin/python") else sys.executabl
 ROOT = os.path.dirname(os.path.dirname(os.path.abspath(__file__)))
 
 
+_excluded = [0]
+
+
 def _rebound(case):
     """(edited program, [[module, statement]]) for the optional variable re-binding of the case, else (None, [])"""
     rb = case.get("rebind")
@@ -41,6 +44,12 @@ def _rebound(case):
         return None, []
     p2, info = progs.apply_edit(case["program"], rb, "r")
     if not info["applied"]:
+        return None, []
+    if any(dd["k"] == "alias" and dd.get("form") == "clone" for dd in p2["defs"]):
+        # a module-level modifier clone created at import time pins the version its function had then; after an in-process
+        # change it makes every function that refers to it differ from a fresh import - known finding held-clone (recorded
+        # under C01, where it serves stale results). Excluded here by construction, and counted.
+        _excluded[0] += 1
         return None, []
     if any(dd["k"] == "mut" and dd["target"] == info.get("target") for dd in p2["defs"]):
         # the module text itself appends to this variable at import time: "new value in the text, then append" and
@@ -97,7 +106,9 @@ def execute(case, scratch):
         store = os.path.join(d, "store")
         os.makedirs(store)
         results = []
+        _excluded[0] = 0
         p2, pre = _rebound(case)
+        out.excluded = _excluded[0]
         for i, cfg in enumerate(cfgs):
             # configuration 0 and 1 share the store and call the roots (A then B); the rest only compute versions.
             # With a re-binding, configuration 0 imports the program text in which the variable already has its new
@@ -163,7 +174,7 @@ def strategy(thorough):
     rebind = st.integers(0, 2).flatmap(lambda i: st.none() if i == 0 else st.builds(
         lambda e, k: dict(e, kind=k), progs.edit_strategy(), st.sampled_from(["var", "varmut", "varmut", "varcopy"])))
     return st.builds(lambda p, c, rb: {"program": p, "configs": c, "rebind": rb},
-                     progs.program_strategy(max_fns=7 if thorough else 5, allow_hidden=False, allow_fdef=True, allow_dictset=True, allow_query=True, allow_mut=True, allow_tuplist=True, allow_twins=True, allow_keyclash=True, allow_rename=True, allow_mixset=True), cfgs, rebind)
+                     progs.program_strategy(max_fns=7 if thorough else 5, allow_hidden=False, allow_fdef=True, allow_dictset=True, allow_query=True, allow_mut=True, allow_tuplist=True, allow_twins=True, allow_keyclash=True, allow_rename=True, allow_mixset=True, allow_nested_refs=True), cfgs, rebind)
 
 
 def run_shard(ctx):
